@@ -853,3 +853,45 @@ pub fn cased_family() -> Vec<Seq> {
     out.dedup();
     out
 }
+
+/// Adjacent-branch family: two branch tokens side by side in one concatenation (alone, after a
+/// literal, before a literal, around a separator), each an alternation of two bodies, a
+/// single-branch alternation or a repetition, over bodies that begin / end with a separator or a
+/// tree wildcard or cross a component boundary. This is the state space of everything that
+/// combines the summaries of two neighbouring branches (depth terms and their terminations,
+/// text fragments, boundary adjacency, exhaustiveness tails): sizes 7-11, out of reach of the
+/// size-bounded shape pass.
+pub fn adjacent_family(full: bool) -> Vec<Seq> {
+    let bodies: Vec<&str> = if full { vec!["a", "a/", "/a", "a/b", "*", "**/a", "a/**", "a/b/", "?"] } else { vec!["a", "a/", "/a", "a/b", "*", "**/a", "a/**"] };
+    let mut groups: Vec<String> = vec![];
+    for x in &bodies {
+        groups.push(format!("{{{}}}", x));
+        groups.push(format!("<{}:1,2>", x));
+        groups.push(format!("<{}:0,1>", x));
+        if full {
+            groups.push(format!("<{}:2,>", x));
+        }
+        for y in &bodies {
+            if x != y {
+                groups.push(format!("{{{},{}}}", x, y));
+            }
+        }
+    }
+    if full {
+        groups.push("{a/,a/b/,a/b/a/}".into());
+        groups.push("{a,a/b,a/b/a}".into());
+    }
+    let mut out = vec![];
+    for g1 in &groups {
+        for g2 in &groups {
+            for text in [format!("{}{}", g1, g2), format!("b{}{}", g1, g2), format!("{}{}b", g1, g2), format!("{}/{}", g1, g2)] {
+                if let Ok(ast) = crate::syntax::parse(&text) {
+                    out.push(strip(&ast));
+                }
+            }
+        }
+    }
+    out.sort();
+    out.dedup();
+    out
+}
